@@ -7,16 +7,6 @@ namespace Dreye
 universe u
 variable {α : Type u} [Zero α] [One α] [Add α] [Sub α] [Mul α] [Div α]
 
-def ten : α := two * (two * two + 1)
-def pow10 : Nat → α
-  | 0 => 1
-  | n + 1 => ten * pow10 n
-/-- natural number literal in α by binary digits (core-only) -/
-def ofNatLit : Nat → α
-  | 0 => 0
-  | n + 1 => if (n + 1) % 2 = 0 then two * ofNatLit ((n + 1) / 2) else two * ofNatLit ((n + 1) / 2) + 1
-decreasing_by all_goals omega
-
 /-- Planck constant 6.62607015e-34 J s -/
 def hPlanck : α := ofNatLit 662607015 / pow10 42
 /-- speed of light 299792458 m/s -/
